@@ -653,8 +653,71 @@ def slice_bytes(E, base, sl, st, sink):
         s0, a, l = zs.arg(0), zs.arg(1), zs.arg(2)
         if E.implied(st, z3.And(a >= 0, l >= 0, a + l <= z3.Length(s0), lo >= 0, ln >= 0, lo + ln <= l)):
             return mk_bytes(z3.SubSeq(s0, z3.simplify(a + lo), z3.simplify(ln)), kind)
+    cs = _concat_slice(E, st, zs, lo, ln)
+    if cs is not None:
+        return mk_bytes(cs, kind)
     t = z3.SubSeq(zs, z3.simplify(lo), z3.simplify(ln))
     return mk_bytes(t, kind)
+
+
+def _known_length(st, c):
+    """concrete length of a sequence term if it is syntactically evident or stated by a path-condition entry `Length(c) == k`"""
+    if z3.is_app(c):
+        k = c.decl().kind()
+        if k == z3.Z3_OP_SEQ_UNIT:
+            return 1
+        if k == z3.Z3_OP_SEQ_EMPTY:
+            return 0
+    lc = z3.Length(c)
+    for t in st.pc:
+        if z3.is_app(t) and t.decl().kind() == z3.Z3_OP_EQ and t.num_args() == 2:
+            a, b = t.arg(0), t.arg(1)
+            if z3.is_int_value(b) and a.eq(lc):
+                return b.as_long()
+            if z3.is_int_value(a) and b.eq(lc):
+                return a.as_long()
+    return None
+
+
+def _concat_slice(E, st, zs, lo, ln):
+    """s[lo:lo+ln] of a concatenation s = c1 ++ ... ++ ck whose members have known lengths and whose bounds fall on member boundaries
+    is the concatenation of the members in between (exact; avoids a sequence-solver proof for `b'\\x04' + x + y` style encodings)"""
+    if not (z3.is_app(zs) and zs.decl().kind() == z3.Z3_OP_SEQ_CONCAT):
+        return None
+    lo_s, ln_s = z3.simplify(lo), z3.simplify(ln)
+    if not (z3.is_int_value(lo_s) and z3.is_int_value(ln_s)):
+        return None
+    lo_i, hi_i = lo_s.as_long(), lo_s.as_long() + ln_s.as_long()
+    kids = []
+
+    def flat(x):
+        if z3.is_app(x) and x.decl().kind() == z3.Z3_OP_SEQ_CONCAT:
+            for y in x.children():
+                flat(y)
+        else:
+            kids.append(x)
+    flat(zs)
+    pos, picked, inside = 0, [], False
+    for c in kids:
+        n = _known_length(st, c)
+        if n is None:
+            return None
+        if pos == lo_i and not inside:
+            inside = True
+        if inside and pos < hi_i:
+            if pos + n > hi_i:
+                return None                 # the upper bound cuts a member
+            picked.append(c)
+        elif not inside and pos < lo_i < pos + n:
+            return None                     # the lower bound cuts a member
+        pos += n
+        if inside and pos >= hi_i:
+            break
+    if not inside or pos < hi_i:
+        return None
+    if lo_i == hi_i:
+        return z3.Empty(BYTES)
+    return picked[0] if len(picked) == 1 else z3.Concat(*picked)
 
 
 def subscript(E, base, idx, st, sink):
